@@ -369,12 +369,13 @@ func (l *Linter) LintFiles(filepaths []string, project *Project) ([]*Error, erro
 				return fmt.Errorf("could not read %q: %w", w.path, err)
 			}
 
+			fromRoot := pathFromProjectRoot(w.path, proj)
 			if cwd != "" {
 				if r, err := filepath.Rel(cwd, w.path); err == nil {
 					w.path = r // Use relative path if possible
 				}
 			}
-			errs, err := l.check(w.path, src, proj, proc, ac, rwc)
+			errs, err := l.check(w.path, fromRoot, src, proj, proc, ac, rwc)
 			if err != nil {
 				return fmt.Errorf("fatal error while checking %s: %w", w.path, err)
 			}
@@ -449,6 +450,7 @@ func (l *Linter) LintFile(path string, project *Project) ([]*Error, error) {
 		return nil, fmt.Errorf("could not read %q: %w", path, err)
 	}
 
+	fromRoot := pathFromProjectRoot(path, project)
 	if l.cwd != "" {
 		if r, err := filepath.Rel(l.cwd, path); err == nil {
 			path = r
@@ -459,7 +461,7 @@ func (l *Linter) LintFile(path string, project *Project) ([]*Error, error) {
 	dbg := l.debugWriter()
 	localActions := NewLocalActionsCache(project, dbg)
 	localReusableWorkflows := NewLocalReusableWorkflowCache(project, l.cwd, dbg)
-	errs, err := l.check(path, src, project, proc, localActions, localReusableWorkflows)
+	errs, err := l.check(path, fromRoot, src, project, proc, localActions, localReusableWorkflows)
 	proc.wait()
 	verifPoint("lint.return", "file")
 	if err != nil {
@@ -503,7 +505,7 @@ func (l *Linter) Lint(path string, content []byte, project *Project) ([]*Error, 
 	dbg := l.debugWriter()
 	localActions := NewLocalActionsCache(project, dbg)
 	localReusableWorkflows := NewLocalReusableWorkflowCache(project, l.cwd, dbg)
-	errs, err := l.check(path, content, project, proc, localActions, localReusableWorkflows)
+	errs, err := l.check(path, pathFromProjectRoot(path, project), content, project, proc, localActions, localReusableWorkflows)
 	proc.wait()
 	verifPoint("lint.return", "content")
 	if err != nil {
@@ -517,8 +519,23 @@ func (l *Linter) Lint(path string, content []byte, project *Project) ([]*Error, 
 	return errs, nil
 }
 
+// pathFromProjectRoot returns the given file path as a path relative to the root directory of the
+// project. Glob patterns in "paths" of the configuration file are matched against this path so that
+// the result depends neither on the current working directory nor on how the path was spelled. When
+// no project is known or the path cannot be made relative to its root, the path is returned as-is.
+func pathFromProjectRoot(path string, project *Project) string {
+	if project == nil {
+		return path
+	}
+	if r, err := filepath.Rel(absPath(project.RootDir()), absPath(path)); err == nil {
+		return r
+	}
+	return path
+}
+
 func (l *Linter) check(
 	path string,
+	pathFromRoot string,
 	content []byte,
 	project *Project,
 	proc *concurrentProcess,
@@ -638,7 +655,7 @@ func (l *Linter) check(
 		}
 	}
 
-	all = l.filterErrors(all, cfg.PathConfigs(path))
+	all = l.filterErrors(all, cfg.PathConfigs(pathFromRoot))
 
 	for _, err := range all {
 		err.Filepath = path // Populate filename in the error
